@@ -77,3 +77,14 @@ Proof. split; reflexivity. Qed.
 Example ex_runs : fst (assert_matches1 cfg (fun _ => None) ex_ann ex_ok []) = Ok tt
                /\ fst (assert_matches1 cfg (fun _ => None) ex_ann ex_bad []) = Raise PTypeCheckC.
 Proof. split; vm_compute; reflexivity. Qed.
+
+(* Callable: def f(a: str) -> int does not conform to Callable[[int], int] (parameter class unrelated), nor does
+   def g(a: int) -> object (result not a subclass); both are rejected *)
+Definition f_str_int : value := VFun {| fs_params := [(Some (Some CStr), false)]; fs_ret := Some (Some CInt); fs_coroutine := false |}.
+Definition g_int_obj : value := VFun {| fs_params := [(Some (Some CInt), false)]; fs_ret := Some (Some CObject); fs_coroutine := false |}.
+Example ex_callable_clash :
+  conforms (fun _ => None) (ACallable (Some [ACls CInt]) (ACls CInt)) f_str_int = MustNot /\
+  conforms (fun _ => None) (ACallable (Some [ACls CInt]) (ACls CInt)) g_int_obj = MustNot /\
+  fst (assert_matches1 cfg (fun _ => None) (ACallable (Some [ACls CInt]) (ACls CInt)) f_str_int []) = Raise PTypeCheckC /\
+  fst (assert_matches1 cfg (fun _ => None) (ACallable (Some [ACls CInt]) (ACls CInt)) g_int_obj []) = Raise PTypeCheckC.
+Proof. repeat split; vm_compute; reflexivity. Qed.
